@@ -486,11 +486,54 @@ __denega(dexpr_t root)
 	return;
 }
 
+#if defined DATEUTILS_VERIF
+static size_t
+__verif_walk(const_dexpr_t n, const_dexpr_t *seen, size_t nseen, size_t cap)
+{
+/* H5: after simplification no negation flag is left (the matchers ignore
+ * it) and no node is reachable twice (free_dexpr() frees what it reaches) */
+	for (size_t i = 0U; i < nseen; i++) {
+		if (seen[i] == n) {
+			dateutils_verif_probe(
+				"dexpr_shared", (long)i, (long)nseen, n->type, 0);
+		}
+	}
+	if (nseen < cap) {
+		seen[nseen++] = n;
+	}
+	if (n->nega) {
+		dateutils_verif_probe("dexpr_shape", 1, n->type, 0, 0);
+	}
+	switch (n->type) {
+	case DEX_CONJ:
+	case DEX_DISJ:
+		if (n->left == NULL || n->right == NULL) {
+			dateutils_verif_probe("dexpr_shape", 2, n->type, 0, 0);
+			break;
+		}
+		nseen = __verif_walk(n->left, seen, nseen, cap);
+		nseen = __verif_walk(n->right, seen, nseen, cap);
+		break;
+	default:
+		break;
+	}
+	return nseen;
+}
+#endif	/* DATEUTILS_VERIF */
+
 static void
 dexpr_simplify(dexpr_t root)
 {
 	__denega(root);
 	__dnf(root);
+#if defined DATEUTILS_VERIF
+	with (const_dexpr_t *seen = calloc(4096U, sizeof(*seen))) {
+		if (seen != NULL && root != NULL) {
+			(void)__verif_walk(root, seen, 0U, 4096U);
+		}
+		free(seen);
+	}
+#endif	/* DATEUTILS_VERIF */
 	return;
 }
 
